@@ -170,6 +170,9 @@ def gen_cases(prop, seed, n, tier):
     return [json.loads(l) for l in o.split("\n") if l.strip()]
 
 
+_confirmed_hangs = [0]
+
+
 def run_impl(cases, timeout=3600, pvh=None, env=None, _budget=None):
     """run the REAL implementation on the cases; returns {id: impl}.
     A process that dies (fatal error, OOM, per-case time-out, os.Exit inside the code under test) is re-run on the rest of the
@@ -200,6 +203,22 @@ def run_impl(cases, timeout=3600, pvh=None, env=None, _budget=None):
                 res[j["id"]] = j["impl"]
             except Exception:
                 pass
+    # a per-case time-out may be the machine's doing (a frozen or starved process), not the code's: every case that timed out is run
+    # again alone, in a fresh process, with twice the time; only a case that times out again counts as a hang
+    # (after two cases that timed out twice the tree is known to hang: no further retries, the run must not take an hour)
+    if not (env or {}).get("_PVH_RETRY"):
+        for c in cases:
+            r = res.get(c["id"])
+            if isinstance(r, dict) and r.get("class") == "timeout" and _confirmed_hangs[0] < 2:
+                e3 = dict(env or {})
+                e3["_PVH_RETRY"] = "1"
+                e3["PVH_CASE_TIMEOUT_S"] = str(2 * int(e2.get("PVH_CASE_TIMEOUT_S", "45")))
+                again = run_impl([c], timeout, pvh, e3, {"left": 0})
+                if c["id"] in again:
+                    res[c["id"]] = again[c["id"]]
+                    a = again[c["id"]]
+                    if isinstance(a, dict) and a.get("class") in ("timeout", "process-died"):
+                        _confirmed_hangs[0] += 1
     if rc != 0 or len(res) < len(cases):
         done = set(res)
         rest = [c for c in cases if c["id"] not in done]
